@@ -41,6 +41,19 @@ func (w *World) runOracles(pre *Snapshot, op Op, res *StepResult, post *Snapshot
 	}
 	decision := op.Kind == OpSchedule
 	binds := newBindings(pre, post)
+	if op.Kind == OpUpdAsk {
+		// the RM resizes the real ask of a placeholder replacement that is in flight
+		if pa := pre.Apps[op.App]; pa != nil {
+			for _, al := range pa.Allocs {
+				if al.Placeholder && al.ReleaseKey == op.Key {
+					if w.ResizedMidSwap == nil {
+						w.ResizedMidSwap = map[string]bool{}
+					}
+					w.ResizedMidSwap[op.Key] = true
+				}
+			}
+		}
+	}
 	if decision {
 		w.Decisions++
 		for _, b := range binds {
@@ -222,7 +235,7 @@ func (w *World) oracleC01(pre *Snapshot, op Op, post *Snapshot, decision bool, b
 						// the real ask while the swap was in flight, the node takes the difference when the swap completes
 						if pa := pre.Apps[op.App]; pa != nil {
 							if ph := pa.Allocs[op.Key]; ph != nil && ph.ReleaseKey != "" {
-								if real := pa.Asks[ph.ReleaseKey]; real != nil && !real.Res.FitsIn(ph.Res) {
+								if real := pa.Asks[ph.ReleaseKey]; real != nil && !real.Res.FitsIn(ph.Res) && w.ResizedMidSwap[ph.ReleaseKey] {
 									forced = true
 									w.Tag("c01-resized-replacement-larger-than-placeholder")
 								}
